@@ -727,7 +727,7 @@ fn main() {
             "new" | "drop" | "add" | "clear" | "limit" | "markers" | "search" | "prepare" => op_store(&mut ctx, &op, &mut ev),
             "tok" => op_tok(&mut ctx, &op, &mut ev),
             "r_create" | "r_destroy" | "r_add" | "r_limit" | "r_markers" | "r_search" => op_registry(&mut ctx, &op, &mut ev),
-            "dl" | "jac" | "lsort" | "dlnew" | "jacnew" | "wm" | "tm" => comp::op_component(&mut ctx, &op, &mut ev),
+            "dl" | "jac" | "lsort" | "dlnew" | "jacnew" | "wm" | "tm" | "gate" => comp::op_component(&mut ctx, &op, &mut ev),
             _ => {
                 ev.insert("skipped".into(), json!("unknown op"));
             }
